@@ -89,6 +89,14 @@ CHECKS = {
             "both vectors (or, for added methods, the library's own layer indices of the applicable candidates are seen to "
             "shift), and to F8 only when the real order relation is observed asymmetric or cyclic on the program's types.",
             "DESIGN.md §4 C06"),
+    "C10": ("exploration",
+            "runtime monitors: predicate-side guard log, entry monitor on dependent parameters, reference model with value-level applicability ('false => absent'), strategy read-back from generated source",
+            "Harness-owned conditions log every value they are evaluated on (guard clause); every body entry re-checks bound and "
+            "condition; the outcome incl. the error kind is compared with the reference model in which a false dependent "
+            "method is absent; the dispatcher strategy exercised (if-chain / table / counting) is read back for the evidence.",
+            "Different-bound dependent pairs and cross-type literal equality are unspecified; composite types get clauses (a), "
+            "(b) and crash-freedom only; F1-family disagreements need the frozen transcription to predict the observation.",
+            "DESIGN.md §4 C10"),
     "C12": ("exploration",
             "runtime law monitor on typeorder: mirror symmetry, reflexivity, issubclass agreement and transitivity, generic and member laws, on generated closures and online on every pair the library compares during dispatch",
             "All ordered pairs of a bounded-depth closure (built twice) are checked against the algebraic laws the statement "
